@@ -128,13 +128,21 @@ theorem encoded_fragments_nonempty (cstTotal : Nat) (table : List Entry) (lys : 
     (by simp only [goodToks]; exact goodToks_tableToks table lys h.entries) f hf
 
 /-- **round trip**: for every table and every legal layout λ (`lys`), framing the encoded SST + CONTINUE
-    records and running `RecordIter` + `parse_sst` over the stream gives the text of every string, in order -/
+    records — followed by any further records `rest` that do not start with a CONTINUE — and running
+    `RecordIter` + `parse_sst` over the stream gives the text of every string, in order -/
+theorem sst_roundtrip_in_stream (cstTotal : Nat) (table : List Entry) (lys : List EntryLayout)
+    (h : Legal cstTotal table lys) (fuel : Nat) (rest : Bytes) (hrest : notCont rest) :
+    sstFromStream (fuel + 1) (frameSst (encodeSst cstTotal table lys) ++ rest)
+      = .ok (table.map fun e => decodeUtf16 e.units) :=
+  sstFromStream_encode cstTotal table lys h.entries h.count
+    (fun f hf => Nat.lt_of_le_of_lt (h.sizes f hf) (by omega)) fuel rest hrest
+
 theorem sst_roundtrip (cstTotal : Nat) (table : List Entry) (lys : List EntryLayout)
     (h : Legal cstTotal table lys) (fuel : Nat) :
     sstFromStream (fuel + 1) (frameSst (encodeSst cstTotal table lys))
-      = .ok (table.map fun e => decodeUtf16 e.units) :=
-  sstFromStream_encode cstTotal table lys h.entries h.count
-    (fun f hf => Nat.lt_of_le_of_lt (h.sizes f hf) (by omega)) fuel
+      = .ok (table.map fun e => decodeUtf16 e.units) := by
+  have := sst_roundtrip_in_stream cstTotal table lys h fuel [] notCont_nil
+  rwa [List.append_nil] at this
 
 /-- the same at the level of the gathered record (what `parse_sst` is handed by `parse_workbook`) -/
 theorem parseSst_roundtrip (cstTotal : Nat) (table : List Entry) (lys : List EntryLayout)
